@@ -47,6 +47,14 @@ def thread_scenario(rng, sid, i, base):
             p = pre + b"/f%d.conf" % rng.randint(0, 3)
             s.file(p, rng.choice(FILES))
             s.add("RF", 0, h(p), h(b"="), h(b"#"), *( ["cb:all"] if rng.random() < 0.3 else []))
+        elif r < 0.5:
+            # the layered read of a project that has drop-ins only (no configuration name), under the thread's own root prefix
+            s.file(pre + b"/usr/etc/prj.d/10-a.conf", rng.choice(FILES[:4]))
+            if rng.random() < 0.6:
+                s.file(pre + b"/etc/prj.d/20-b.conf", rng.choice(FILES[:4]))
+            s.file(pre + b"/etc/prj.conf.d/not-a-dropin-of-this-mode.conf", b"wrong=1\n")
+            s.add("NEW", 0, "opt", h(b"ROOT_PREFIX=" + pre))
+            s.add("RC", 0, h(b"prj"), h(b"/usr/etc"), rng.choice(["-", h(b"")]), h(b"conf"), h(b"="), h(b"#"))
         elif r < 0.7:
             s.file(pre + b"/usr/cfg.conf", rng.choice(FILES[:4]))
             if rng.random() < 0.7:
